@@ -544,3 +544,97 @@ package client
 //@            (sameTX(mach(c).currentTX, old(mach(c).currentTX)) && mach(c).phase == channel.Signing && mach(c).stagingTX.State == next))
 // (second case: the persister failed after the update was enabled; third case: the persister failed while staging - the function
 // returns before its discard handler is installed and leaves the update staged)
+
+// ---------------------------------------------------------------------------
+// Funding and settlement requests (C03): what the client asks the ledger to do.
+// ---------------------------------------------------------------------------
+
+// The funding request carries the channel's parameters, its (initial) current state, the own index and the agreed amounts.
+//@ func (*Client).completeFunding
+//@   trusted
+//@   requires c != nil && ch != nil
+//@ func (*Client).fundLedgerChannel
+//@   requires c != nil && c.funder != nil && chanOK(ch) && ctx != nil
+//@   modifies *
+//@   callsite channel.Funder.Fund : arg1.Params == &mach(ch).params && arg1.State == old(chanState(ch)) && arg1.Idx == mach(ch).idx && arg1.Agreement == agreement
+
+// Withdrawal of a ledger channel: the adjudicator is asked to withdraw with exactly the current transaction (state and all
+// signatures), the channel's parameters, the own index and accounts, the caller's secondary flag, and the states of all sub-channels.
+//@ ghost func subStatesOf(c *Channel) channel.StateMap
+//@ func (*Channel).subChannelStateMap
+//@   trusted
+//@   requires c != nil
+//@   ensures err == nil ==> states == subStatesOf(c)
+//@ func (*Channel).IsLedgerChannel
+//@   requires c != nil
+//@   ensures result <==> c.parent == nil
+//@ func (*Channel).IsVirtualChannel
+//@   trusted
+//@   requires c != nil
+//@   ensures result ==> c.parent != nil
+//@ func (*Channel).hasLockedFunds
+//@   requires chanWF(c)
+//@   ensures result <==> len(chanState(c).Locked) > 0
+//@ func (*Channel).withdrawSubChannelIntoParent
+//@   trusted
+//@   requires c != nil
+//@ func (*Channel).withdrawVirtualChannel
+//@   trusted
+//@   requires c != nil
+//@ func (*Channel).withdraw
+//@   requires chanOK(c) && ctx != nil && c.adjudicator != nil && (c.parent != nil ==> chanWF(c.parent))
+//@   modifies *
+//@   panics c.parent != nil
+//@   callsite channel.Adjudicator.Withdraw : c.parent == nil && arg1.Params == &mach(c).params && arg1.Idx == mach(c).idx && arg1.Acc == mach(c).acc && arg1.Secondary == secondary &&
+//@     sameTX(arg1.Tx, old(mach(c).currentTX)) && arg2 == subStatesOf(c)
+//@   callsite (*Channel).withdrawSubChannelIntoParent : c.parent != nil && len(chanState(c).Locked) == 0
+//@   callsite (*Channel).withdrawVirtualChannel : len(chanState(virtual).Locked) == 0
+
+// Registration of a dispute by the client: always for the root of the channel tree, with exactly the root's current
+// transaction and the current transactions of all its sub-channels.
+//@ ghost func subSignedStatesOf(c *Channel) []channel.SignedState
+//@ func (*Channel).gatherSubChannelStates
+//@   trusted
+//@   requires c != nil
+//@   ensures err == nil ==> states == subSignedStatesOf(c)
+//@ func (*Channel).tryLockRecursive
+//@   trusted
+//@   requires c != nil
+//@ func (mutexList).Unlock
+//@   trusted
+//@ func (*Channel).setRegisteringRecursive
+//@   trusted
+//@   requires c != nil
+//@ func (*Channel).setRegisteredRecursive
+//@   trusted
+//@   requires c != nil
+//@ func (*Channel).registerDispute
+//@   requires chanOK(c) && ctx != nil && c.adjudicator != nil && c.parent == nil
+//@   modifies *
+//@   callsite channel.Adjudicator.Register : arg1.Params == &mach(c).params && arg1.Idx == mach(c).idx && !arg1.Secondary && sameTX(arg1.Tx, old(mach(c).currentTX)) && arg2 == subSignedStatesOf(c)
+
+// Settle: a channel whose current state is not final is registered first (and the timeout awaited); the withdrawal is requested
+// only after every channel of the tree has been set to Withdrawing.
+//@ func (*Channel).ensureRegistered
+//@   trusted
+//@   requires c != nil
+//@ func (*Channel).applyRecursive
+//@   trusted
+//@   requires c != nil
+//@ func (*Channel).Settle
+//@   requires chanOK(c) && ctx != nil && c.adjudicator != nil
+//@   modifies *
+//@   callsite (*Channel).ensureRegistered : !old(chanState(c).IsFinal)
+//@   callsite (*Channel).withdraw : secondary == old(secondary)
+
+// Honest sub-channel funding (the update this client proposes): the sub-channel's balances are taken out of the participants'
+// balances and one sub-allocation {id, per-asset totals, no index map} is appended; nothing else changes. This is exactly
+// the relation the peer's filter (subFundOK) demands.
+//@ func (*Channel).fundSubChannel$1
+//@   requires state != nil && *alloc != nil && nonNilBalances(state.Balances) && nonNilLocked(state.Locked) && nonNilBalances((*alloc).Balances) && sameDims(state.Balances, (*alloc).Balances)
+//@   modifies state.*, state.Locked[*]
+//@   ensures result == nil && balancesMoved(old(state.Balances), state.Balances, (*alloc).Balances, 0)
+//@   ensures len(state.Locked) == old(len(state.Locked)) + 1 && (forall k int :: 0 <= k && k < old(len(state.Locked)) ==> subAllocEq(state.Locked[k], old(state.Locked[k]))) &&
+//@           state.Locked[old(len(state.Locked))].ID == *id && len(state.Locked[old(len(state.Locked))].IndexMap) == 0 &&
+//@           len(state.Locked[old(len(state.Locked))].Bals) == len((*alloc).Balances) &&
+//@           forall a int :: 0 <= a && a < len((*alloc).Balances) ==> val(state.Locked[old(len(state.Locked))].Bals[a]) == balSum((*alloc).Balances[a])
